@@ -317,6 +317,7 @@ def _range_eval(M: Model, fn: FuncInfo, skip_tests, depth: int = 0):
         raise T.Unknown('call depth')
     env: Dict[str, object] = {}
     tenv = T.Env(M, fn)
+    tenv.floordiv = True
 
     def scalar(e) -> T.Term:
         if isinstance(e, ast.Name) and e.id in env:
@@ -432,7 +433,9 @@ def _check_used_index_set(ctx: Ctx) -> None:
         ctx.error('C02.j: the used-bin set of %s is not a recognised concatenation of integer ranges (%s): cannot tell' % (fn.qualname, e))
     alias = {'self._fft_size': T.Term.sym('self.fft_size'), 'self._num_used_subcarriers': T.Term.sym('self.num_used_subcarriers')}
     parts = {(T.substitute(a, alias), T.substitute(b, alias)) for a, b in got.parts}
-    h = T.parse_spec('self.num_used_subcarriers // 2')
+    senv = T.Env(None, None)
+    senv.floordiv = True
+    h = T.parse_spec('self.num_used_subcarriers // 2', senv)
     N = T.Term.sym('self.fft_size')
     want = {(N - h, N), (T.Term.const(1), h + T.Term.const(1))}
     ok = parts == want and len(got.parts) == 2
